@@ -43,6 +43,7 @@ def run_check(tier, seed):
         broken.append({'kind': 'translator', 'item': 'translator/bytes_delegation.py', 'error': str(ex)})
     # 2. Coq
     audit = std_audit(ev, PROP, broken)
+    if tier == 'thorough' and audit['ok']: T.coqchk(PROP, ev, broken)
     # 3. harness
     ok, out, bindir = cargo_build(['transport'])
     if not ok:
@@ -68,6 +69,7 @@ def run_check(tier, seed):
             if shape and not p04: shapes.add(('virtio',) + shape)
             for p in p04:
                 p['input'] = vtxt[i]; findings.append(p); spec_bad.add(i)
+                if p.get('step'): p['input_min'] = T.case_text_v(dict(c, ops=c['ops'][:p['step']]))     # the prefix up to the deviating op reproduces it
             if not o.get('harness_panic'): exprs.append(T.vcase_coq(c, o, with_dirty=False))     # the dirty log is C17's business
             else: exprs.append('false')
         samples.append({'virtio_case': vtxt[0][:300], 'observed': json.dumps(outs[0])[:300]})
@@ -86,13 +88,14 @@ def run_check(tier, seed):
             if shape and not probs: shapes.add(('fusedev', c['mode']) + shape)
             for p in probs:
                 p['input'] = ftxt[i]; findings.append(p); spec_bad.add(i)
+                if p.get('step'): p['input_min'] = T.case_text_f(dict(c, ops=c['ops'][:p['step']]))
             exprs.append(T.fcase_coq(c, o) if not o.get('harness_panic') else 'false')
         samples.append({'fusedev_case': ftxt[1][:300], 'observed': json.dumps(outs[1])[:300]})
         ev.cov['fusedev_cases_within_one_shot_protocol'] = inproto
         if coq_ok: ev.cov['model_vs_impl_fusedev'] = coq_compare('c04_f', exprs, ftxt, broken, 'Model/Transport.v frun/vrun vs FuseDevWriter/fuse-buffer Reader', spec_bad)
 
     # ---- Bytes<usize> for FileVolatileSlice
-    bcases = [T.gen_bcase(rng, m) for m in T.METHODS for _ in range(nb)]
+    bcases = [T.gen_bcase(rng, m) for m in T.METHODS for _ in range(nb)] + [T.gen_bcase(rng, 'offset') for _ in range(nb)]
     btxt = [T.case_text_b(c) for c in bcases]
     outs, err = T.run_harness(bindir, 'bytes', btxt, 'c04')
     if err: broken.append({'kind': 'harness-run', 'log': err})
@@ -106,7 +109,8 @@ def run_check(tier, seed):
                 spec_bad.add(i)
                 per_method.setdefault(c['method'], []).append(probs[0])
             else: shapes.add(('bytes', c['method'], c['size'], o['res'][0]))
-            exprs.append(T.bcase_coq(c, o) if not o.get('harness_panic') else 'false')
+            if c['method'] != 'offset':     # offset() is not part of the Bytes trait / the Coq adapter model: specification check only
+                exprs.append(T.bcase_coq(c, o) if not o.get('harness_panic') else 'false')
         for m, ps in per_method.items():
             f = ps[0]; f['n_failing_cases'] = len(ps); findings.append(f)
         samples.append({'bytes_case': btxt[3 * nb][:200], 'observed': json.dumps(outs[3 * nb])[:300]})
